@@ -703,6 +703,42 @@ def part_d(h, tmp):
 
 
 # --------------------------------------------------------------------------------------------------------------------
+def part_e(h):
+    """E: what an argument accepts does not depend on the default it was declared with (the statement's 'if and only if' has no
+    clause about defaults): restricted types with no default, a valid default and a default outside the type, every candidate
+    and the default's own spelling, through parse_object and argv."""
+    email = [s for s in ("a@b.cd", "unset", "", "x", "a@b", "auto", "none") ]
+    numbers = ["1", "0", "-1", "2", "0.5", "auto", "unset", "1e0", ""]
+    grid = [
+        ("Email", jt.Email, email_pred, email, ["a@b.cd", "unset", "auto", ""]),
+        ("NotEmptyStr", jt.NotEmptyStr, lambda s: re.match(r"^.*[^ ].*$", s) is not None, ["x", "", " ", "unset"], ["x", "", " "]),
+        ("PositiveInt", jt.PositiveInt, lambda s: model_number(int, ((">", 0),), "and", s)[0], numbers, ["1", "0", "auto", "-1", 0, 1]),
+        ("ClosedUnitInterval", jt.ClosedUnitInterval, lambda s: model_number(float, ((">=", 0), ("<=", 1)), "and", s)[0], numbers, ["0.5", "2", "auto", 2.0, 0.5]),
+    ]
+    n = 0
+    for name, T, pred, cands, defaults in grid:
+        for d in ["<none>"] + defaults:
+            res = outcome(parser_for, T, **({} if d == "<none>" else {"default": d}))
+            if res[0] != "ok":
+                continue  # a parser that refuses the declaration accepts nothing
+            p = res[1]
+            d_valid = d == "<none>" or bool(pred(d))
+            for v in cands:
+                for chan, fn, args in (("obj", p.parse_object, ({"k": v},)), ("argv", p.parse_args, (["--k=" + v],))):
+                    exp = bool(pred(v))
+                    r = outcome(fn, *args)
+                    got = r[0] == "ok"
+                    rel = "value-equal-to-the-default" if (d != "<none>" and v == d) else "value-differs-from-the-default"
+                    key = f"c20:restricted-parse-with-default:{name}:default-{'valid' if d_valid else 'outside-the-type'}:{rel}:{chan}:{'accepted' if got else 'rejected'}-against-the-type"
+                    # a declaration whose default is outside the type may make every parse fail on that default; what is never
+                    # allowed is to accept a value the restriction excludes
+                    h.check(got == exp or (not d_valid and not got), key, f"type {name}, default {d!r}: {v!r} accepted={got}, the restriction says {exp}",
+                            {"parser": f"add_argument('--k', type={name}, default={d!r})", "channel": chan, "value": v, "outcome": repr(r)[:200]})
+                    n += 1
+            h.nontrivial(("E", name, repr(d)))
+    h.note(f"E: {n} parses of restricted types declared with / without defaults")
+
+
 def main():
     h = Harness("b20_scalar_types", rule="A: every multiset of 1..3 comparisons over 6 operators x 4 refs (thorough 5) x {int,float} x {and,or} (quick: triples over 3 "
                 f"refs) x {len(number_candidates())} candidate values, called directly; the singletons, 3 compound sets and the 6 shipped types also through a parser "
@@ -711,7 +747,8 @@ def main():
                 "C: a grid of values per registered type x {serializer/deserializer pair, parse_object, yaml and json dump re-read from a config file "
                 "(thorough: and from a string), argv}, then List/Dict/Tuple/List[List] of the type; non-trivial = distinct (type, value). "
                 f"D: 16 hint shapes x {len(SECRETS)} secrets x input channels (object, argv, string, default) x 9 dump variants + print_config + save; non-trivial = "
-                "distinct (shape, channel, secret) whose parse result holds a SecretStr.")
+                "distinct (shape, channel, secret) whose parse result holds a SecretStr. "
+                "E: 4 shipped restricted types x {no default, valid defaults, defaults outside the type} x 4-9 strings incl. the default's spelling x {parse_object, argv}.")
     # registries are restored at the end (types created here are not left behind in the imported module)
     snap = (dict(jt.registered_types), dict(jt.registered_type_handlers), dict(jt.registration_pending), set(vars(jt)))
     cwd = os.getcwd()
@@ -721,6 +758,7 @@ def main():
             part_b(h)
             part_c(h, tmp)
             part_d(h, tmp)
+            part_e(h)
     finally:
         os.chdir(cwd)
         jt.registered_types.clear()
